@@ -6,7 +6,10 @@ unset GOWORK
 HERE="$(cd "$(dirname "$0")" && pwd)"
 PROP="$1"
 TIER="${2:-${VERIF_TIER:-quick}}"
-if [ ! -x "$HERE/bin/lzcheck" ] || [ -n "$(find "$HERE/checker" -name '*.go' -newer "$HERE/bin/lzcheck" 2>/dev/null | head -1)" ]; then
+if [ ! -x "$HERE/bin/lzcheck" ] || [ -n "$(find "$HERE/checker" -maxdepth 1 -name '*.go' -newer "$HERE/bin/lzcheck" 2>/dev/null | head -1)" ]; then
   (cd "$HERE/checker" && go build -o "$HERE/bin/lzcheck" .) || { echo "lzcheck: build failed"; exit 2; }
+fi
+if [ "$TIER" = thorough ] && { [ ! -x "$HERE/bin/lzrewrite" ] || [ -n "$(find "$HERE/checker/cmd" -name '*.go' -newer "$HERE/bin/lzrewrite" 2>/dev/null | head -1)" ]; }; then
+  (cd "$HERE/checker" && go build -o "$HERE/bin/lzrewrite" ./cmd/lzrewrite) || echo "lzrewrite: build failed (self-validation will record it)"
 fi
 exec "$HERE/bin/lzcheck" -verif "$HERE" -repo "${LZ_REPO:-/repo}" -property "$PROP" -tier "$TIER"
